@@ -12,13 +12,15 @@ K2 = @@K2@@            # indent width of the second layout (re-indentation may c
 LENS = @@LENS@@          # length of every body line; 0 = a physically empty line (editors do not indent empty lines when re-indenting)
 LEADER = @@LEADER@@    # body lines carry the '# ' leader (canonical) or are arbitrary text
 KIND = @@KIND@@
+PRE = @@PRE@@          # concrete prefix of the first layout's indentation (wide indentation at no path cost)
+OPEN = @@OPEN@@        # concrete text that follows '#[[[' on the opening line ("" = nothing)
 NCP = @@NCP@@          # sum(LENS)
 hc.shim_re("real")
 hc.quiet_logging()
 
 
 def _block(ind, texts, eol):
-    s = "#[[["
+    s = "#[[[" + OPEN
     for t in texts:
         if t == "":
             s = s + eol                      # a blank line stays blank whatever the block's indentation
@@ -45,7 +47,7 @@ def check(cps: $$CPS$$, i1: $$IT$$, i2: $$IT$$) -> bool:
     for t in texts:
         if "]]" in t:
             return True
-    a = hc.S(i1[:K]); b = hc.S(i2[:K2])
+    a = PRE + hc.S(i1[:K]); b = hc.S(i2[:K2])
     if MODE == "indent":
         b1 = _block(a, texts, chr(10)); b2 = _block(b, texts, chr(10))
         p1 = prog.real_page(prog.documented_unit(KIND, b1, "", "1"), Settings())
